@@ -14,9 +14,9 @@ What `SolveUnc.__init__` / `FreqDirect.__init__` / `fsolve` / `solvepsd` do *aro
   stands behind each row of `self.m / self.b / self.k`, `kdof`, the current `_rb`, `_el`, and the
   equations whose mass went into `imrb` / `invm`.  `get_su_eig` shrinks `m, b, k, kdof` to the
   elastic set, renumbers `_el` and empties `_rb`;
-* `rbMassRows`, `elRows` — the rows `_solve_freq_rb` / `_solve_freq_unc` / `_solve_freq_coup`
-  address (`invm[_rb]` or `imrb`; `b[_el]`, `k[_el]`, `m[_el]`; `invm`), paired by position with
-  `force[rb]`, `force[el]`, `force[kdof]`;
+* `rbMassRows`, `rbDampRows`, `elRows` — the rows `_solve_freq_rb` / `_solve_freq_unc` /
+  `_solve_freq_coup` address (`invm[_rb]` or `imrb`; `b[_rb]` or `brb`; `b[_el]`, `k[_el]`, `m[_el]`;
+  `invm`), paired by position with `force[rb]`, `force[el]`, `force[kdof]`;
 * `colSU`, `colFD` — one frequency column of `fsolve`: block solutions scattered into the full
   zero-initialised `d, v, a` (`_alloc_dva`) in the order of the source (rf, rb, el);
 * `fsolveSU`, `fsolveFD`, `solvePsdCase` — all columns, `pre_eig` transforms, `solvepsd` with the
@@ -137,6 +137,13 @@ def rbMassRows (st : SuState) (uncReal : Bool) : Option (List Nat) :=
     | none => none
   else st.imrb
 
+/-- the rows of `b` that `_solve_freq_rb` reads the rigid-body damping from on the uncoupled path
+(repaired code): real coefficients `self.b[self._rb]` (current `b`, current `_rb`); complex
+coefficients `self.brb`, which `get_su_eig` took as `self.b[self._rb]` *before* it reduced `b` to the
+elastic modes and emptied `_rb` — the rows `nonrf[_rb]` of the layout. -/
+def rbDampRows (st : SuState) (uncReal : Bool) : Option (List Nat) :=
+  if uncReal then gather st.mRows st.rb_ else gather st.lay.nonrf st.lay.rb_
+
 /-- the rows of `b`, `k`, `m` that `_solve_freq_unc` pairs with `force[el]`: `self.b[_el]` … -/
 def elRows (st : SuState) : Option (List Nat) := gather st.mRows st.el_
 
@@ -186,6 +193,37 @@ def rbAcc (e : ColEnv α) (massRows : Option (List Nat)) (rb : List Nat) (F : Na
         else .ok ((mr.zip rb).map fun p => (1 / e.M p.1 p.1) * F p.2)
       else solveIdx e e.M mr rb F
 
+/-- `im` of `_solve_freq_rb`: `1.0` (`m = None`), `np.ravel(self.invm[self._rb])` or
+`np.ravel(self.imrb)` — the reciprocal masses on the rows `mr` -/
+def rbIm (e : ColEnv α) (br : List Nat) (mr : Option (List Nat)) : Except String (List α) :=
+  if e.mNone then .ok (br.map fun _ => 1)
+  else match mr with
+    | none => .error "attribute-error"
+    | some mr => .ok (mr.map fun r => 1 / e.M r r)
+
+/-- `_solve_freq_rb`, the `if unc:` block of the repaired code: with `b_rb` the damping of the
+rigid-body equations (`bRows`), `if np.any(b_rb):` every acceleration is divided by
+`1 - 1j * (b_rb * im) / freqw` at the non-zero frequencies; nothing happens on the coupled path. -/
+def rbDamp (e : ColEnv α) (bRows mr : Option (List Nat)) (arb : List α) (w : α) :
+    Except String (List α) :=
+  if !e.unc then .ok arb
+  else match bRows with
+    | none => .error "index-error"
+    | some br =>
+      if br.all fun r => e.isZero (e.B r r) then .ok arb
+      else match rbIm e br mr with
+        | .error m => .error m
+        | .ok im =>
+          if im.length != br.length || br.length != arb.length then .error "value-error"
+          else .ok (List.zipWith (fun a bim => rbDampAcc e.isZero e.i a bim w) arb
+            (List.zipWith (fun r x => e.B r r * x) br im))
+
+/-- the damping `_solve_freq_rb` solves the rigid-body block with: the diagonal of `b` on the
+uncoupled path, none on the coupled path.  (Coupled systems: the automatic detection makes a mode
+rigid-body only if its whole row and column of `k` *and* `b` are below 0.005, so there is no damping
+to use; a user-given `rb` on a coupled system with damping on those modes is solved without it.) -/
+def ColEnv.rbDamping (e : ColEnv α) : Nat → Nat → α := fun r c => if e.unc then e.B r c else 0
+
 /-- `_solve_freq_unc`, elastic part -/
 def elValsUnc (e : ColEnv α) (rows el : List Nat) (F : Nat → α) (w : α) :
     Except String (List (Dva α)) :=
@@ -219,10 +257,11 @@ def assemble (n : Nat) (rf : List Nat) (vrf : List (Dva α)) (rb : List Nat) (vr
   scatter (scatter (scatter (List.replicate n zeroDva) rf vrf) rb vrb) el vel
 
 /-- the equation the assembled column is claimed to satisfy (`Props/C02c.lean`): the full-size
-matrix that is block diagonal by partition — `−Ω² M` on the rigid-body block, the dynamic stiffness
-on the elastic block, `K` on the residual-flexibility block, zero between partitions -/
-def partStiff (i w : α) (M B K : Nat → Nat → α) (rb el rf : List Nat) (r c : Nat) : α :=
-  if rb.contains r && rb.contains c then -(w * w) * M r c
+matrix that is block diagonal by partition — `iΩ Brb − Ω² M` on the rigid-body block (`Brb` = the
+damping the rigid-body block is solved with, `ColEnv.rbDamping`), the dynamic stiffness on the
+elastic block, `K` on the residual-flexibility block, zero between partitions -/
+def partStiff (i w : α) (M Brb B K : Nat → Nat → α) (rb el rf : List Nat) (r c : Nat) : α :=
+  if rb.contains r && rb.contains c then i * Brb r c * w - M r c * (w * w)
   else if el.contains r && el.contains c then i * B r c * w + K r c - M r c * (w * w)
   else if rf.contains r && rf.contains c then K r c
   else 0
@@ -256,12 +295,19 @@ structure EigData (α : Type) (ks : Nat) where
   urd : Fin ks → Fin s → α
   urinvv : Fin s → Fin ks → α
 
+/-- `_solve_freq_rb`: `a_rb` after the damping of the rigid-body modes was applied -/
+def rbAccD (e : ColEnv α) (st : SuState) (uncReal : Bool) (F : Nat → α) (w : α) :
+    Except String (List α) :=
+  match rbAcc e (rbMassRows st uncReal) st.lay.rb F with
+  | .error m => .error m
+  | .ok arb => rbDamp e (rbDampRows st uncReal) (rbMassRows st uncReal) arb w
+
 /-- `_solve_freq_rb`: the rigid-body block values (`if self.rbsize and incrb:` — otherwise nothing
 is written) -/
 def rbVals (e : ColEnv α) (st : SuState) (uncReal : Bool) (F : Nat → α) (w : α) :
     Except String (List (Dva α)) :=
   if st.lay.rb.isEmpty || !(e.inc.d || e.inc.v || e.inc.a) then .ok []
-  else (rbAcc e (rbMassRows st uncReal) st.lay.rb F).map fun arb =>
+  else (rbAccD e st uncReal F w).map fun arb =>
     arb.map fun a => frfRb e.isZero e.i a w e.inc
 
 /-- the elastic block of `SolveUnc.fsolve`: the rows written and their values.
